@@ -10,22 +10,18 @@
 (* run reports every failing case.  CAM.tla replays the same recordings    *)
 (* one event per state for the stack-based (T1) invariants.                *)
 (***************************************************************************)
-EXTENDS Sem, Json, IOUtils, TLCExt
+EXTENDS Props, Json, IOUtils, TLCExt
 
 Input == JsonDeserialize(IOEnv.TRACE_FILE)
 Cases == Input.cases
 Progs == Input.progs
+Sessions == Input.sessions
+Done == {Input.done[i] : i \in 1..Len(Input.done)}
 Strict == Input.strict        \* TRUE: foreign exception classes must match as "foreign" (C06)
 
 VARIABLES cid, done
 
-PlanOf(cs) ==
-    LET n == Progs[cs.pi] IN
-    CASE cs.op = "parse"  -> IF cs.flt.k = 0 /\ cs.flt.mode = "none" THEN ParseCall(n, cs.data, cs.start, cs.kw)
-                             ELSE ParseFaulty(n, cs.data, cs.start, cs.kw, cs.flt)
-      [] cs.op = "build"  -> IF cs.flt.k = 0 /\ cs.flt.mode = "none" THEN BuildCall(n, cs.arg, cs.data, cs.kw)
-                             ELSE BuildFaulty(n, cs.arg, cs.data, cs.kw, cs.flt)
-      [] cs.op = "sizeof" -> SizeofCall(n, cs.kw)
+PlanOf(cs) == Model(Progs[cs.pi], cs)
 
 \* coarse error classes: what the properties distinguish
 ErrAbs(cls) == CASE cls = "StreamError" -> "stream" [] cls = "ExplicitError" -> "explicit"
@@ -37,13 +33,6 @@ ErrAbs(cls) == CASE cls = "StreamError" -> "stream" [] cls = "ExplicitError" -> 
 \* through, any failure is accepted unless the case is strict.
 ErrMatch(exp, got) == IF IsConstructError(exp) THEN ErrAbs(exp) = ErrAbs(got)
                       ELSE (~Strict) \/ ErrAbs(got) = "foreign"
-
-RECURSIVE HasOpaque(_)
-HasOpaque(v) == CASE v.t = "opaque" -> TRUE
-                  [] v.t = "list" -> \E i \in 1..Len(v.xs) : HasOpaque(v.xs[i])
-                  [] v.t = "dict" -> \E i \in 1..Len(v.v) : HasOpaque(v.v[i])
-                  [] OTHER -> FALSE
-ValEq(a, b) == HasOpaque(a) \/ HasOpaque(b) \/ PyEq(a, b)
 
 \* first disagreement between plan event x and recorded event r ("" = none)
 EvDiff(x, r) ==
@@ -63,7 +52,6 @@ FirstDiff(plan, rec, i) ==
     ELSE LET d == EvDiff(plan[i], rec[i]) IN
          IF d # "" THEN [at |-> i, why |-> d] ELSE FirstDiff(plan, rec, i + 1)
 
-OutOfModelIn(plan, r) == r.err \in {OutOfModel, "Diverges"} \/ \E i \in 1..Len(plan) : plan[i].err \in {OutOfModel, "Diverges"}
 
 ResultDiff(cs, r) ==
     IF r.ok # cs.res.ok THEN "result-status"
@@ -75,26 +63,41 @@ ResultDiff(cs, r) ==
     ELSE (IF VInt(r.v) # cs.res.v THEN "result-value" ELSE "")
 
 Blank == [e |-> "-", k |-> "-", op |-> "-", p |-> 0, ok |-> TRUE, v |-> VNone, err |-> ""]
+\* A verdict carries the first event-level disagreement (why, at, exp, got) and, independently, the
+\* disagreement of the call's observable result (rd): status, value / bytes, final position.
 Verdict(cs) ==
     LET r == PlanOf(cs)
         plan == r.ev
-    IN IF OutOfModelIn(plan, r) THEN [id |-> cs.id, st |-> "skipped", at |-> 0, why |-> "out-of-model", exp |-> Blank, got |-> Blank]
-       ELSE LET d == FirstDiff(plan, cs.events, 1) IN
-            IF d.at # 0 THEN [id |-> cs.id, st |-> "mismatch", at |-> d.at, why |-> d.why,
-                              exp |-> IF d.at <= Len(plan) THEN plan[d.at] ELSE Blank,
-                              got |-> IF d.at <= Len(cs.events) THEN cs.events[d.at] ELSE Blank]
-            ELSE LET rd == ResultDiff(cs, r) IN
-                 IF rd # "" THEN [id |-> cs.id, st |-> "mismatch", at |-> 0, why |-> rd,
-                                  exp |-> [Blank EXCEPT !.ok = r.ok, !.err = r.err, !.p = Tell(r.s),
-                                                        !.v = IF cs.op = "build" /\ r.ok THEN VBytes(SubSeq(r.s.data, Len(cs.data) + 1, Len(r.s.data)))
-                                                              ELSE IF cs.op = "sizeof" /\ r.ok THEN VInt(r.v) ELSE r.v],
-                                  got |-> [Blank EXCEPT !.ok = cs.res.ok, !.err = cs.res.err, !.p = cs.res.p, !.v = cs.res.v]]
-                 ELSE [id |-> cs.id, st |-> "ok", at |-> 0, why |-> "", exp |-> Blank, got |-> Blank]
+    IN IF IsOOM(r) THEN [id |-> cs.id, st |-> "skipped", at |-> 0, why |-> "out-of-model", rd |-> "", exp |-> Blank, got |-> Blank]
+       ELSE LET d == FirstDiff(plan, cs.events, 1)
+                rd == ResultDiff(cs, r)
+                mexp == [Blank EXCEPT !.ok = r.ok, !.err = r.err, !.p = Tell(r.s), !.v = ModelRes(cs, r).v]
+                mgot == [Blank EXCEPT !.ok = cs.res.ok, !.err = cs.res.err, !.p = cs.res.p, !.v = cs.res.v]
+            IN IF d.at # 0 THEN [id |-> cs.id, st |-> "mismatch", at |-> d.at, why |-> d.why, rd |-> rd,
+                                 exp |-> IF d.why \in {"event-kind", "length"} /\ rd # "" THEN mexp
+                                         ELSE IF d.at <= Len(plan) THEN plan[d.at] ELSE Blank,
+                                 got |-> IF d.why \in {"event-kind", "length"} /\ rd # "" THEN mgot
+                                         ELSE IF d.at <= Len(cs.events) THEN cs.events[d.at] ELSE Blank]
+               ELSE IF rd # "" THEN [id |-> cs.id, st |-> "mismatch", at |-> 0, why |-> "", rd |-> rd, exp |-> mexp, got |-> mgot]
+               ELSE [id |-> cs.id, st |-> "ok", at |-> 0, why |-> "", rd |-> "", exp |-> Blank, got |-> Blank]
 
-Init == cid \in 1..Len(Cases) /\ done = FALSE
+\* property predicates over several recorded calls of one program
+SessionVerdict(x) ==
+    LET c == [i \in 1..Len(x.cs) |-> Cases[x.cs[i]]]
+        n == Progs[c[1].pi]
+        st == CASE x.clause = "C01.sym"   -> C01Sym(n, c[1], c[2])
+                [] x.clause = "C02.canon" -> C02Canon(n, c[1], c[2], c[3], c[4])
+                [] x.clause = "C02.self"  -> C02Self(n, c[1], c[2], c[3])
+                [] x.clause = "C05.exact" -> C05Exact(n, c[1], c[2])
+                [] x.clause = "C05.total" -> C05Total(n, c[1])
+    IN [id |-> x.id, st |-> st, at |-> 0, why |-> x.clause, rd |-> "", exp |-> Blank, got |-> Blank]
+
+NC == Len(Cases)
+IdOf(i) == IF i <= NC THEN Cases[i].id ELSE Sessions[i - NC].id
+Init == cid \in {i \in 1..(NC + Len(Sessions)) : IdOf(i) \notin Done} /\ done = FALSE
 Next == /\ ~done
         /\ done' = TRUE
         /\ cid' = cid
-        /\ PrintT(ToJson(Verdict(Cases[cid])))
+        /\ PrintT(ToJson(IF cid <= NC THEN Verdict(Cases[cid]) ELSE SessionVerdict(Sessions[cid - NC])))
 Spec == Init /\ [][Next]_<<cid, done>>
 =============================================================================
